@@ -65,6 +65,9 @@ package dns
 //@   assert at "r1, e1 = zp.fsys.Open(includePath)" gatefs: zp.includeAllowed && zp.includeDepth < 7 [C07]
 //@   assert at "r1, e1 = os.Open(includePath)" gateos: zp.includeAllowed && zp.includeDepth < 7 [C07]
 //@   assert at "zp.sub = NewZoneParser(r1, neworigin, includePath)" depth: zp.includeDepth < 7 [C07]
+// a record is handed out only if the lexer met no error while its RDATA was read (an error token carries a stale
+// kind, and several RDATA parsers skip what looks like a blank)
+//@   assert at "if parseAsRFC3597 {@2" lexclean: !zp.c.l.err [C07]
 //@   exit sticky: old(zp.parseErr) != nil ==> ret0 == nil && !ret1 [C07]
 //@   stored at "zp.defttl = &ttlState{ttl, true}" dirttl: value != nil && value.ttl == ttl && value.isByDirective [C06]
 //@   assert at "zp.defttl = &ttlState{ttl, true}" dirttlval: ttl == callres("stringToTTL", 0) && callres("stringToTTL", 1) && callarg("stringToTTL", 0) == l.token [C06]
